@@ -159,7 +159,12 @@ fn stress(t: &[&str]) -> String {
     let seq = SourceView::new(text.clone().into());
     let nlines = seq.line_count();
     let calls: Vec<String> = {
-        let mut c: Vec<String> = (0..nlines + 2).map(|i| format!("g{}", i)).collect();
+        // long texts (clone / indexing races need an index that takes a while to build): a handful of positions
+        let mut c: Vec<String> = if nlines > 2000 {
+            [0, nlines / 2, nlines - 1, nlines, nlines + 1].iter().map(|i| format!("g{}", i)).collect()
+        } else {
+            (0..nlines + 2).map(|i| format!("g{}", i)).collect()
+        };
         c.push("g4294967295".into());
         c.push("c".into());
         c.push("a".into());
@@ -211,6 +216,25 @@ fn stress(t: &[&str]) -> String {
                 (bad, pan)
             }));
         }
+        // meanwhile another thread keeps cloning the shared view: a clone is a view of its own and must answer like a
+        // fresh one whatever the original was doing at the time (the line cache and the progress counter are two
+        // pieces of state; copying them at different instants would not give a consistent view)
+        let stop = Arc::new(std::sync::atomic::AtomicBool::new(false));
+        let cloner = {
+            let view = view.clone();
+            let stop = stop.clone();
+            std::thread::spawn(move || {
+                let mut kept: Vec<SourceView> = vec![];
+                while !stop.load(std::sync::atomic::Ordering::Relaxed) {
+                    kept.push((*view).clone());
+                    if kept.len() > 8 {
+                        kept.remove(0);
+                    }
+                }
+                kept.push((*view).clone());
+                kept
+            })
+        };
         for h in hs {
             match h.join() {
                 Ok((b, p)) => {
@@ -219,6 +243,24 @@ fn stress(t: &[&str]) -> String {
                 }
                 Err(_) => panics += 1,
             }
+        }
+        stop.store(true, std::sync::atomic::Ordering::Relaxed);
+        match cloner.join() {
+            Ok(kept) => {
+                let ci = calls.len() - 2; // "c"
+                let ai = calls.len() - 1; // "a"
+                for cl in kept {
+                    match catch_unwind(AssertUnwindSafe(|| (do_call(&cl, "c"), do_call(&cl, "a")))) {
+                        Ok((c, a)) => {
+                            if c != expected[ci] || a != expected[ai] {
+                                mismatches += 1;
+                            }
+                        }
+                        Err(_) => panics += 1,
+                    }
+                }
+            }
+            Err(_) => panics += 1,
         }
         match catch_unwind(AssertUnwindSafe(|| show_line(view.get_line(0)))) {
             Ok(s) => {
